@@ -10,6 +10,7 @@ import (
 	"fmt"
 	"sort"
 	"strings"
+	"sync"
 
 	kmip "github.com/ovh/kmip-go"
 	_ "github.com/ovh/kmip-go/payloads"
@@ -289,6 +290,13 @@ func (w *walker) enums() {
 			x := fmt.Sprintf(`<%s type="Enumeration" value="%s"/>`, e.Name, n)
 			err = ttlv.UnmarshalXML([]byte(x), &back)
 			w.check(err != nil, "C17:enum-unknown-name:"+e.Name+":"+n, fmt.Sprintf("XML value %q accepted for %s as %v", n, e.Name, back.Value), x)
+			if hasTyped {
+				// an unknown name stays unknown however often it is presented (Go text form, as encoding/json uses it)
+				for attempt := 1; attempt <= 3; attempt++ {
+					uv, uerr := et.UnmarshalText(n)
+					w.check(uerr != nil, "C17:enum-unknown-name:"+e.Name+":"+n+":text", fmt.Sprintf("UnmarshalText(%q) for %s is accepted as %X at presentation %d", n, e.Name, uv, attempt), nil)
+				}
+			}
 			w.c.Count("unknown_names", 1)
 		}
 	}
@@ -378,7 +386,26 @@ func rt(enc string, in any, out any) ([]byte, error) {
 	}
 }
 
+// the exported flag constants, in the order of the pinned flag names
+var usageConsts = []kmip.CryptographicUsageMask{kmip.CryptographicUsageSign, kmip.CryptographicUsageVerify, kmip.CryptographicUsageEncrypt, kmip.CryptographicUsageDecrypt,
+	kmip.CryptographicUsageWrapKey, kmip.CryptographicUsageUnwrapKey, kmip.CryptographicUsageExport, kmip.CryptographicUsageMACGenerate, kmip.CryptographicUsageMACVerify,
+	kmip.CryptographicUsageDeriveKey, kmip.CryptographicUsageContentCommitment, kmip.CryptographicUsageKeyAgreement, kmip.CryptographicUsageCertificateSign, kmip.CryptographicUsageCRLSign,
+	kmip.CryptographicUsageGenerateCryptogram, kmip.CryptographicUsageValidateCryptogram, kmip.CryptographicUsageTranslateEncrypt, kmip.CryptographicUsageTranslateDecrypt,
+	kmip.CryptographicUsageTranslateWrap, kmip.CryptographicUsageTranslateUnwrap}
+var storageConsts = []kmip.StorageStatusMask{kmip.StorageStatusOnlineStorage, kmip.StorageStatusArchivalStorage}
+
 func (w *walker) masks(r *core.Rand) {
+	// what an application writes with the exported constants is what the pinned names denote
+	for i, cst := range usageConsts {
+		names := w.reg.Masks["CryptographicUsageMask"]
+		w.check(i < len(names) && int32(cst) == int32(1)<<i && ttlv.BitmaskStr(cst, "|") == names[i], fmt.Sprintf("C17:mask-constant:CryptographicUsageMask:%d", i),
+			fmt.Sprintf("exported constant %d of CryptographicUsageMask is %#x and is written as %q; pinned: bit %d", i, int32(cst), ttlv.BitmaskStr(cst, "|"), i), nil)
+	}
+	for i, cst := range storageConsts {
+		names := w.reg.Masks["StorageStatusMask"]
+		w.check(i < len(names) && int32(cst) == int32(1)<<i && ttlv.BitmaskStr(cst, "|") == names[i], fmt.Sprintf("C17:mask-constant:StorageStatusMask:%d", i),
+			fmt.Sprintf("exported constant %d of StorageStatusMask is %#x and is written as %q; pinned: bit %d", i, int32(cst), ttlv.BitmaskStr(cst, "|"), i), nil)
+	}
 	for _, mt := range maskTypes() {
 		names := w.reg.Masks[mt.name]
 		w.check(len(names) > 0, "C17:mask-unpinned:"+mt.name, "no pinned flags for "+mt.name, nil)
@@ -535,6 +562,48 @@ func vendorTypeNames(c *core.Ctx, r *core.Rand, i int) {
 	w.enums()
 }
 
+// concurrentNames: names and hex forms are computed by many goroutines at once (unregistered tags, unnamed
+// enumeration values, masks with unnamed bits): each caller gets the text of ITS number.
+func concurrentNames(c *core.Ctx, r *core.Rand, i int) {
+	const G = 16
+	type failure struct{ what string }
+	fails := make(chan failure, G)
+	start := make(chan struct{})
+	var wg sync.WaitGroup
+	for g := 0; g < G; g++ {
+		wg.Add(1)
+		go func(g int) {
+			defer wg.Done()
+			<-start
+			for k := 0; k < 4000; k++ {
+				tag := 0x540100 + g*0x1000 + k%0xFFF // unregistered extension tags, different per goroutine
+				if got, want := ttlv.TagString(tag), fmt.Sprintf("0x%06X", tag); got != want {
+					fails <- failure{fmt.Sprintf("TagString(%#x) = %q while other goroutines ask for other tags", tag, got)}
+					return
+				}
+				v := uint32(0x80000000 | uint32(g)<<20 | uint32(k))
+				if txt, err := kmip.CryptographicAlgorithm(v).MarshalText(); err != nil || string(txt) != fmt.Sprintf("0x%08X", v) {
+					fails <- failure{fmt.Sprintf("the text form of unnamed enumeration value %#x is %q (%v) while other goroutines ask for other values", v, txt, err)}
+					return
+				}
+				m := kmip.CryptographicUsageMask(int32(1)<<(20+g%10) | 1)
+				if got, want := ttlv.BitmaskStr(m, "|"), fmt.Sprintf("Sign|0x%08X", uint32(1)<<(20+g%10)); got != want {
+					fails <- failure{fmt.Sprintf("BitmaskStr(%#x) = %q while other goroutines ask for other masks", int32(m), got)}
+					return
+				}
+			}
+		}(g)
+	}
+	close(start)
+	wg.Wait()
+	close(fails)
+	c.Count("concurrent_name_lookups", int64(G*4000*3))
+	c.Distinct(core.Hash64("concurrent-names", fmt.Sprint(i)))
+	for f := range fails {
+		c.Violation("C17:concurrent:text-of-another-number", f.what, nil)
+	}
+}
+
 func Spec() *core.Spec {
 	return &core.Spec{
 		ID:    "C17",
@@ -543,7 +612,7 @@ func Spec() *core.Spec {
 			"written and read back by name through XML, JSON, binary and the text form), repeated in 3 fresh processes whose observations are compared; once more in a fresh process after vendor extension values (0x8000000x) were registered for three already registered enumerations; plus every element, enumeration-value and mask-flag name used by the 5318 messages of the shipped OASIS vectors (documents produced elsewhere) resolved through pin and library; " +
 			"vendor enumerations under extension tags whose Go type names equal standard tag names; distinct = distinct registered (scope,name) entries visited",
 		Assumptions: []string{"/verif/ref/registry.json is the pinned KMIP 1.0-1.4 registry (dumped from the pinned tree and reviewed against the specification tables)"},
-		Required:    []string{"checks", "unregistered_numbers", "unknown_names", "mask_values.named-pair", "oasis_names.tag", "oasis_names.enum", "oasis_names.mask", "vendor_extension_values", "vendor_type_name_values"},
+		Required:    []string{"checks", "unregistered_numbers", "unknown_names", "mask_values.named-pair", "oasis_names.tag", "oasis_names.enum", "oasis_names.mask", "vendor_extension_values", "vendor_type_name_values", "concurrent_name_lookups"},
 		EvalCounter: "checks",
 		Families: []core.Family{
 			{Name: "walk", Isolated: true, Exhaustive: true, N: func(string) int { return 3 }, Run: func(c *core.Ctx, r *core.Rand, i int) {
@@ -582,6 +651,12 @@ func Spec() *core.Spec {
 				}
 			}},
 			{Name: "vendor-type-names", Isolated: true, Exhaustive: true, N: func(string) int { return 1 }, Run: vendorTypeNames},
+			{Name: "concurrent-names", N: func(tier string) int {
+				if tier == core.Thorough {
+					return 400
+				}
+				return 8
+			}, Run: concurrentNames},
 			{Name: "oasis-names", Exhaustive: true, N: func(string) int { return len(c02.OasisMessages()) }, Run: func(c *core.Ctx, r *core.Rand, i int) {
 				// every element name, enumeration value name and mask flag name used by the shipped OASIS vectors
 				// (documents produced elsewhere) must denote, in the library, the number the pin gives it
